@@ -1,5 +1,5 @@
 (* C10 model driver (the C09 driver plus the operations F and W).  Input lines (fields separated by blanks, byte strings in hex, "-" = empty):
-     <id> A <R> <keybytes> <P> <plainmeta> <id0> <O> <U> <OE> <UE> <Perms> <supplied> <pw> <aes> <n> (<num> <gen> <s|t> <raw>)*n
+     <id> A <R> <keybytes> <P> <plainmeta> <id0> <O> <U> <OE> <UE> <Perms> <supplied> <pw> <aes> <n> (<num> <gen> <s|t|r:early:sizes:sizes> <raw>)*n
           open the handler as parseEncryptDict does, then decrypt the n strings/streams
      <id> C <V> <perm> <keybits> <plainmeta> <id0> <user> <owner> [<filekey> <usalt> <osalt> <fill>]
           createStdSecHandler (randomness supplied for R6)
@@ -8,6 +8,7 @@
      <id> H <md5|sha256|sha384|sha512> <data>      <id> X <key> <data>  (RC4)
      <id> B <e|d> <key> <block>   (AES block)      <id> P <R> <perm>    (permission algebra)
      <id> U <data>  (unpadPKCS7)
+     <id> G <supplied> <pw> <id0> <n> (<entry> <i|n|s|b|c> <value>)*n   parseEncryptDict + authentication on an abstract /Encrypt
      <id> F <V> <perm> <keybits> <plainmeta> <id0> <user> <owner> <filekey|-> <usalt|-> <osalt|-> <fill|-> <aes> <n>
             (<num> <gen> <s|t> <iv> <k> <chunk>*k)*n
           createStdSecHandler, then encrypt n strings/streams with the handler's file key
@@ -53,7 +54,17 @@ let () =
          Printf.printf "%s ok %s %s\n" id (string_of_z perm) (hx key);
          items id 0 n rest (fun num gen kind raw ->
            let okey = key_for_ref h.hR h.hKeyBytes key (flag aes) num gen in
-           let r = if kind = "s" then decrypt_bytes (flag aes) okey raw else decrypt_stream (flag aes) okey raw in
+           let r =
+             if kind = "s" then decrypt_bytes (flag aes) okey raw
+             else if Stdlib.String.length kind > 1 && kind.[0] = 'r' then begin
+               (* r:<early>:<source sizes minus one, comma separated or ->:<consumer sizes minus one or -> *)
+               match Stdlib.String.split_on_char ':' kind with
+               | [_; early; ss; cs] ->
+                 let nats s = if s = "-" then [] else Stdlib.List.map (fun x -> nat_of_int (int_of_string x)) (Stdlib.String.split_on_char ',' s) in
+                 read_stream (flag aes) okey raw (nats ss) (flag early) (nats cs)
+               | _ -> Res.Err Res.Other
+             end
+             else decrypt_stream (flag aes) okey raw in
            match r with Res.Ok d -> hx d | Res.Err _ -> "ERR")
        | Res.Err c ->
          Printf.printf "%s %s\n" id (cls_name c);
@@ -95,6 +106,8 @@ let () =
         | Some r ->
           if int_of_z r <= 4 then
             Some (create_legacy r (b id0) (b user) (b owner) perm (nat_of_int (int_of_string bits / 8)) (flag plain))
+          else if bits = "255" then  (* revision 5: AES-256 with the single SHA-256 hash *)
+            Some (create5 (b id0) (b user) (b owner) perm (flag plain) (b fkey) (b usalt) (b osalt) (b fill))
           else
             (match create6 (b id0) (b user) (b owner) perm (flag plain) (b fkey) (b usalt) (b osalt) (b fill) with
              | Res.Ok hk -> Some hk
@@ -126,6 +139,39 @@ let () =
         | _ -> WriterModel.KMetadata in
       let (s, t) = WriterModel.encrypts k (flag plain) in
       Printf.printf "%s %s\n" id (string_of_bool (if part = "s" then s else t))
+    | id :: "G" :: supplied :: pw :: id0 :: n :: rest ->
+      (* parseEncryptDict on an abstract dictionary, then the eager authentication *)
+      let key_of = function
+        | "Filter" -> Some KFilter | "V" -> Some KV | "R" -> Some KR | "O" -> Some KO | "U" -> Some KU | "P" -> Some KP
+        | "Length" -> Some KLength | "CF" -> Some KCF | "StmF" -> Some KStmF | "StrF" -> Some KStrF
+        | "EncryptMetadata" -> Some KEncryptMetadata | "OE" -> Some KOE | "UE" -> Some KUE | "Perms" -> Some KPerms
+        | _ -> None in
+      let name_of = function
+        | "Standard" -> ParseModel.NStandard | "StdCF" -> ParseModel.NStdCF | "Identity" -> ParseModel.NIdentity
+        | "V2" -> ParseModel.NV2 | "AESV2" -> ParseModel.NAESV2 | "AESV3" -> ParseModel.NAESV3 | _ -> ParseModel.NOther in
+      let rec entries k fs acc =
+        if k = 0 then Stdlib.List.rev acc else
+        match fs with
+        | key :: ty :: v :: rest ->
+          let value = match ty with
+            | "i" -> ParseModel.VInt (zi v) | "n" -> ParseModel.VName (name_of v) | "s" -> ParseModel.VStr (b v)
+            | "b" -> ParseModel.VBool (flag v)
+            | _ -> ParseModel.VCF (match v with "nostd" -> None | "nocfm" -> Some None | x -> Some (Some (name_of x))) in
+          (match key_of key with
+           | Some kk -> entries (k - 1) rest ((kk, value) :: acc)
+           | None -> entries (k - 1) rest acc)
+        | _ -> Stdlib.List.rev acc in
+      let d = entries (int_of_string n) rest [] in
+      let cfs = function None -> "none" | Some (aes, bits) -> (if aes then "AES-" else "RC4-") ^ string_of_z bits in
+      (match ParseModel.parse_and_open d (b id0) (flag supplied) (b pw) with
+       | Res.Ok (p, (perm, key)) ->
+         Printf.printf "%s ok R=%s kb=%s P=%s plain=%s stm=%s str=%s key=%s perm=%s\n" id (string_of_z p.ParseModel.pR)
+           (string_of_z p.ParseModel.pKeyBytes) (string_of_z p.ParseModel.pP) (if p.ParseModel.pPlain then "true" else "false")
+           (cfs p.ParseModel.pStm) (cfs p.ParseModel.pStr) (if key = [] then "" else hex_of_bytes key) (string_of_z perm)
+       | Res.Err Res.Malformed -> Printf.printf "%s malformed\n" id
+       | Res.Err Res.Auth -> Printf.printf "%s auth\n" id
+       | Res.Err Res.OutOfFuel -> Printf.printf "%s outoffuel\n" id
+       | Res.Err _ -> Printf.printf "%s err\n" id)
     | [id; "H"; alg; data] ->
       let f = match alg with
         | "md5" -> MD5.md5 | "sha256" -> SHA2.sha256 | "sha384" -> SHA2.sha384 | _ -> SHA2.sha512 in
